@@ -29,10 +29,28 @@ fn linear_locate_expr_joined_str(
     node: crate::ExprJoinedStr<TextRange>,
     location: SourceRange,
 ) -> Result<crate::ExprJoinedStr<SourceRange>, Infallible> {
-    let crate::ExprJoinedStr { range: _, values } = node;
+    let crate::ExprJoinedStr { range, values } = node;
+
+    // Pieces of implicitly concatenated literals carry the range of their own literal, which can
+    // differ from the range of the whole joined string. Locate those by look-ahead, before any
+    // replacement-field expression moves the cursor.
+    let piece_locations: Vec<SourceRange> = values
+        .iter()
+        .map(|value| {
+            let piece = crate::Ranged::range(value);
+            if piece == range {
+                location
+            } else {
+                SourceRange::new(
+                    locator.locate_only(piece.start()),
+                    locator.locate_only(piece.end()),
+                )
+            }
+        })
+        .collect();
 
     let mut located_values = Vec::with_capacity(values.len());
-    for value in values.into_iter() {
+    for (value, location) in values.into_iter().zip(piece_locations) {
         let located = match value {
             crate::Expr::Constant(constant) => {
                 let node = crate::ExprConstant {
